@@ -329,7 +329,7 @@ def parse_bad(bad):
     return [tuple(int(x) for x in m.split(",")) for m in re.findall(r"<<([-0-9, ]+)>>", bad)]
 
 
-def failure_key(scn, f, o):
+def failure_key(scn, f, o, failing=()):
     """Stable key of one failing conjunct on one output: conjunct (+ failed sub-clauses) and the
     input class.  Two input classes with a recorded finding get their own key."""
     conj = f["conjunct"]
@@ -349,7 +349,9 @@ def failure_key(scn, f, o):
             return ("input-symtab-copied:script+no-gc-sections",
                     "with -T script and --no-gc-sections the input objects' .symtab/.strtab/.rela.* sections are copied "
                     f"into the output (an extra SHT_SYMTAB with sh_link=0): {text}")
-    if "secstart-collides-image" in scn["tags"] and conj in COLLIDE_CONJUNCTS:
+    overlapping = bool({"LoadOrder", "MemOverlap", "InLoad"} & set(failing))
+    if "secstart-collides-image" in scn["tags"] and (
+            conj in COLLIDE_CONJUNCTS or (conj in ("Relro", "Tls") and overlapping)):
         return ("fixed-address-collides-image:overlap",
                 "a --section-start / script address inside the range of the automatically placed part of the image is "
                 f"accepted and segments overlap: {text}")
@@ -472,7 +474,7 @@ def run(ctx):
         for ident, fl in per.items():
             scn = by_id[ident]
             for f in fl:
-                key, text = failure_key(scn, f, obs_by_id[ident])
+                key, text = failure_key(scn, f, obs_by_id[ident], [g["conjunct"] for g in fl])
                 ctx.verdict.report(key, text, lambda scn=scn, fl=fl: replay_dir(scn, fl, f"{scn['id']}-seed{ctx.seed}"))
         for scn in observed[:3]:
             cov["samples"].append(summarize(scn))
